@@ -21,7 +21,7 @@ EXPLANATION = (
     "the Windows platform test, (4) every other filesystem-mutating call in these functions is a violation. temporarySibling "
     "yields a sibling (same directory) whose name contains _secureEnoughString() and is opened with O_EXCL (requireCreate -> "
     "create()); _getFilename is executed symbolically on every path: temporary and final name differ for all inputs. "
-    "Not decided: atomicity of rename itself, fsync/durability."
+    "Not decided: atomicity of rename itself, fsync/durability. "
     "Every anchor function is also checked to be entered on every call (no memoising/wrapping decorator, duplicate definition or rebinding). "
 )
 ASSUMPTIONS = ["os.rename within one directory is atomic", "a with block closes (flushes) the file on exit"]
